@@ -107,6 +107,17 @@ func register(id int) *thread {
 // Point is called before every synchronisation operation.
 func Point(pos, kind string) { point(pos, kind) }
 
+// TickPoint: the point before a receive from a ticker's channel. Ticks exist only as events of the trace (the
+// model bounds them by K); once the trace is exhausted the ticker is silent, so the goroutine parks for good.
+func TickPoint(pos, kind string) {
+	if !active {
+		return
+	}
+	if !point(pos, kind) {
+		select {}
+	}
+}
+
 // point reports whether the goroutine was released for an event of the trace (false: pass-through or free run).
 func point(pos, kind string) bool {
 	if !active || freeFlag.Load() {
@@ -488,6 +499,12 @@ func Run(file string, entry func()) {
 			mu.Lock()
 			t := threads[a.tid]
 			mu.Unlock()
+			if t != nil && a.exit {
+				mu.Lock()
+				t.done = true
+				t.at = nil
+				mu.Unlock()
+			}
 			if t != nil && !a.exit && a.kind != "enter" {
 				select {
 				case t.grant <- struct{}{}:
